@@ -10,6 +10,7 @@ import L4.Drv.Throttle
 import L4.Drv.Relay
 import L4.Drv.Health
 import L4.Drv.Config
+import L4.Drv.Trace
 open L4 L4.Drv
 
 def dispatch (line : String) : String :=
@@ -26,6 +27,8 @@ def dispatch (line : String) : String :=
   | "relay" :: rest => (doRelay.run rest).1
   | "health" :: rest => (doHealth.run rest).1
   | "cfg" :: rest => (doCfg.run rest).1
+  | "ltrace" :: rest => (doLTrace.run rest).1
+  | "utrace" :: rest => (doUTrace.run rest).1
   | _ => "bad-op"
 
 partial def loop (h : IO.FS.Stream) (out : IO.FS.Stream) : IO Unit := do
